@@ -263,7 +263,7 @@ class Engine(ExprMixin, StmtMixin, CallMixin):
                     v = ent[1].get(i.as_long())
                     if v is not None:
                         return v
-            v = z3.simplify(z3.Select(arr, i))
+            v = resolve_select(arr, i)
             if rid is not None:
                 ent = self.st.lit.get(rid)
                 if ent is None or not ent[2].eq(arr):
@@ -335,6 +335,28 @@ class Engine(ExprMixin, StmtMixin, CallMixin):
     def eval_clause(self, text, ctx):
         tr = Translator(ctx, self.reg.defs if self.reg else {})
         return tr.clause(text)
+
+
+def resolve_select(arr, i):
+    """arr[i] for a literal i, looking through stores at literal indices WITHOUT rewriting the stored values"""
+    iv = i.as_long()
+    a = arr
+    for _ in range(100000):
+        if z3.is_store(a):
+            j = a.arg(1)
+            if z3.is_bv_value(j):
+                if j.as_long() == iv:
+                    return a.arg(2)
+                a = a.arg(0)
+                continue
+            break
+        if z3.is_K(a):
+            return a.arg(0)
+        break
+    if a is arr or not a.eq(arr):
+        # symbolic store / lambda / plain array underneath: let the rewriter finish the (now short) read
+        return z3.simplify(z3.Select(a, i)) if not z3.is_const(a) else z3.Select(a, i)
+    return z3.Select(a, i)
 
 
 def _small(e, limit):
